@@ -343,6 +343,20 @@ func ruleR3(c *Ctx, prop string) {
 		c.counts["R3."+k] += v
 	}
 	c.counts["R3.sites_in_scope"] = n
+	if prop != "C02" && prop != "C17" && prop != "C01" {
+		// scoped use: say what the scope was, and refuse to pass vacuously on an empty scope
+		nFn := 0
+		for _, f := range c.libFns {
+			if scope(f) {
+				nFn++
+			}
+		}
+		if nFn == 0 {
+			c.undecided("R3", "R3:scope:"+prop, "", "no function in this property's scope: anchors not found")
+		} else {
+			c.discharge("R3", "R3:scope:"+prop, "", fmt.Sprintf("%d functions in scope, %d non-trivial mutation sites, none writes borrowed or shared storage", nFn, n))
+		}
+	}
 	// floors (whole-library scopes only)
 	if prop == "C02" || prop == "C17" {
 		if counts["Reshape"] < 20 || counts["SetAt"] < 4 || counts["Zero"] < 4 {
